@@ -158,6 +158,86 @@ def guard_cases(rep, rng, recs, thorough):
             rep.samples.append({"case": meta, "observed": text})
 
 
+SEQ_PATTERNS = [(False, True), (True, False), (False, False), (False, True, False), (True, True), (False, False, True),
+                (True, False, True)]
+SEQ_NLP = ["SLSQP", "trust-constr", "L-BFGS-B", "BFGS", "Nelder-Mead", "COBYLA", "Newton-CG", "auto"]
+SEQ_LP = ["auto", "linprog", "highs", "highs-ds", "highs-ipm"]
+
+
+def sequence_cases(rep, rng, recs, thorough, with_model=True):
+    """several solves on ONE Problem object (the first warms `_solver_cache` / `_lp_cache` /
+    `_is_linear_cache`): the guard must act on EVERY call — raise under strict, warn otherwise"""
+    lines, metas = [], []
+    picked, seen = [], set()
+    for r in recs:
+        b = hd.base_of(r)
+        dom = b[-2] if b[0] == "mat" else b[-1]
+        if dom == "continuous" or (r[0], dom) in seen:
+            continue
+        seen.add((r[0], dom))
+        picked.append(r)
+    if not thorough:
+        picked = picked[:10]
+    for r in picked:
+        b = hd.base_of(r)
+        dom = b[-2] if b[0] == "mat" else b[-1]
+        for kind, methods in (("nl+c", SEQ_NLP), ("nl", SEQ_NLP), ("lin+c", SEQ_LP), ("lin", SEQ_LP)):
+            for pi, pattern in enumerate(SEQ_PATTERNS):
+                for mi, method in enumerate(methods):
+                    if not thorough and (pi + mi + len(kind)) % 2:
+                        continue
+                    P, _ = problem_from(r, kind)
+                    D = domain_set(P)
+                    # second / third call may use another method of the same family (cache shared)
+                    ms = [method, methods[(mi + 1) % len(methods)], method]
+                    for step, strict in enumerate(pattern):
+                        m = ms[step]
+                        variant = (pi + step) % 3
+                        r1, r2 = results_for(P, variant)
+                        lr = base.LRes(True, 0, [0.5] * len(P.variables), 1.0, 3)
+                        if with_model:
+                            lines.append(base.model_line("solve", P, m, strict, True, None, r1, r2, lr, None))
+                        text, info = base.observe(P, "solve", m, strict, True, None, r1, r2, lr)
+                        meta = {"recipe": r, "kind": kind, "call": "solve", "method": m, "strict": strict,
+                                "variant": variant, "sequence": {"pattern": list(pattern), "methods": ms, "step": step}}
+                        metas.append((meta, text))
+                        bad = judge(meta, text, info, D, dom)
+                        if bad is not None:
+                            bad.update({"kind_of_case": "sequence", "case": meta})
+                            rep.oracle_failures.append(bad)
+    rep.evaluations += len(metas)
+    outs = run_lean_unit(lines) if with_model else []
+    for (meta, text), model in zip(metas, outs):
+        if text != model:
+            rep.corr_mismatches.append({"case": meta, "impl": text[:700], "model": model[:700]})
+    for meta, text in metas:
+        k = f"sequence:step{meta['sequence']['step']}:{'strict' if meta['strict'] else 'relax'}:" + (
+            text.split(":")[1].split(" ")[0] if text.startswith("raise") else "returns")
+        rep.histogram[k] = rep.histogram.get(k, 0) + 1
+        if meta["sequence"]["step"] > 0:
+            rep.nontrivial.add(hash(str(meta)))
+
+
+def replay_sequence(c):
+    r = _tup(c["recipe"])
+    P, _ = problem_from(r, c["kind"])
+    D = domain_set(P)
+    b = hd.base_of(r)
+    dom = b[-2] if b[0] == "mat" else b[-1]
+    seq = c["sequence"]
+    bad = None
+    for step in range(seq["step"] + 1):
+        strict, m = seq["pattern"][step], seq["methods"][step]
+        pi = SEQ_PATTERNS.index(tuple(seq["pattern"]))
+        r1, r2 = results_for(P, (pi + step) % 3)
+        lr = base.LRes(True, 0, [0.5] * len(P.variables), 1.0, 3)
+        text, info = base.observe(P, "solve", m, strict, True, None, r1, r2, lr)
+        print(f"step {step} method={m} strict={strict}:", text[:300])
+        meta = dict(c, method=m, strict=strict)
+        bad = judge(meta, text, info, D, dom)
+    return bad
+
+
 def strip_warn(text):
     out, events, state = text.split(" | ")
     depth, cur, evs = 0, "", []
@@ -288,6 +368,7 @@ def run(ctx) -> core.Report:
         if thorough or per[key] <= (3 if dom != "continuous" else 1):
             guard_recs.append(r)
     guard_cases(rep, rng, guard_recs, thorough)
+    sequence_cases(rep, rng, guard_recs, thorough)
     rep.exhaustive = True
     return rep
 
@@ -299,7 +380,10 @@ def search(ctx, rep):
     bounds_cases(r2, recs)
     if r2.oracle_failures:
         return r2.oracle_failures[0]
-    # the oracle half of guard_cases only (the model is not consulted by `judge`)
+    # the oracle half only (the model is not consulted by `judge`)
+    sequence_cases(r2, rng, recs, False, with_model=False)
+    if r2.oracle_failures:
+        return r2.oracle_failures[0]
     guard_cases_oracle_only(r2, rng, recs)
     return r2.oracle_failures[0] if r2.oracle_failures else None
 
@@ -339,6 +423,10 @@ def replay(payload) -> bool:
         bounds_cases(rep, [_tup(f["recipe"])])
         print(rep.oracle_failures)
         return not rep.oracle_failures
+    if f.get("kind_of_case") == "sequence":
+        bad = replay_sequence(f["case"])
+        print(bad)
+        return bad is None
     if f.get("kind_of_case") == "guard":
         c = f["case"]
         r = _tup(c["recipe"])
